@@ -171,6 +171,7 @@ func (o *Obligation) asserts(sliced bool, extra ...*Term) []*Term {
 		} else {
 			sl = Instantiate(sl, 2, 48)
 		}
+		sl = o.Gen.typeGroundReads(sl)
 	}
 	return sl
 }
@@ -486,6 +487,26 @@ func RunCheck(opts *CheckOpts) int {
 	if nObl == 0 && exit == 0 {
 		return fail("no obligations generated")
 	}
+	// stand-alone SMT lemmas (bit-vector facts behind trusted Int-level contracts)
+	for _, lr := range runLemmas(opts, cfg) {
+		nObl++
+		if lr.Status == "unsat" {
+			nDis++
+			solverWins[lr.Solver]++
+			if len(samples) < 8 {
+				samples = append(samples, map[string]any{"obligation": "lemma:" + lr.Name, "kind": "smt-lemma", "clause": lr.What, "solver": lr.Solver, "ms": lr.Ms})
+			}
+		} else {
+			os.MkdirAll(replayDir, 0o755)
+			path := filepath.Join(replayDir, "lemma-"+sanitize(lr.Name)+".json")
+			writeJSON(path, map[string]any{"property": prop, "obligation": "lemma:" + lr.Name, "kind": "smt-lemma", "status": lr.Status, "solver_output": lr.Output})
+			fmt.Printf("FAILED lemma:%s [%s] %s\n", lr.Name, lr.Status, lr.What)
+			fmt.Printf("VIOLATION property=%s replay=%s no-failing-input-found\n", prop, path)
+			if exit != 2 {
+				exit = 1
+			}
+		}
+	}
 	// bounded stand-ins (executing the real code on a finite space; never counted as proved)
 	var boundedEv []any
 	if opts.Only == "" {
@@ -542,10 +563,16 @@ func decide(o *Obligation, cfg *SolverCfg, known []KnownFinding, prop string, op
 		c0 := *cfg
 		c0.CrossCheck = false
 		c0.TimeoutS = 0
-		if r0 := SolveFirstOnly(&c0, s0); r0.Status == "unsat" {
+		r0 := SolveFirstOnly(&c0, s0)
+		if r0.Status == "unsat" {
 			r0.Solver = "z3-new"
 			if !cfg.CrossCheck {
 				return &oblResult{O: o, Res: r0, Status: "proved"}
+			}
+		} else if r0.Status != "sat" && !cfg.CrossCheck {
+			// at a join block: decide per incoming edge before trying the monolithic query
+			if rs := decideSplit(o, cfg); rs != nil {
+				return &oblResult{O: o, Res: rs, Status: "proved"}
 			}
 		}
 	}
@@ -1014,4 +1041,115 @@ func decideSplit(o *Obligation, cfg *SolverCfg) *SolveResult {
 		total += r0.Ms
 	}
 	return &SolveResult{Status: "unsat", Solver: "z3-new", Ms: total, Output: fmt.Sprintf("unsat (decided per incoming edge, %d cases)", len(cases)), All: map[string]string{"z3-new": "unsat"}}
+}
+
+type lemmaResult struct {
+	Name, What, Status, Solver, Output string
+	Ms                                 int64
+}
+
+// runLemmas discharges the stand-alone SMT-LIB lemma files registered for the property.
+func runLemmas(opts *CheckOpts, cfg *SolverCfg) []lemmaResult {
+	b, err := os.ReadFile(filepath.Join(opts.VerifDir, "lemmas", "index.json"))
+	if err != nil || opts.Only != "" {
+		return nil
+	}
+	var specs []struct {
+		Properties []string `json:"properties"`
+		Name       string   `json:"name"`
+		File       string   `json:"file"`
+		What       string   `json:"what"`
+	}
+	if err := json.Unmarshal(b, &specs); err != nil {
+		return []lemmaResult{{Name: "index.json", Status: "error", Output: err.Error()}}
+	}
+	var out []lemmaResult
+	for _, s := range specs {
+		use := false
+		for _, p := range s.Properties {
+			if p == opts.Prop {
+				use = true
+			}
+		}
+		if !use {
+			continue
+		}
+		src, err := os.ReadFile(filepath.Join(opts.VerifDir, "lemmas", s.File))
+		if err != nil {
+			out = append(out, lemmaResult{Name: s.Name, What: s.What, Status: "error", Output: err.Error()})
+			continue
+		}
+		c := *cfg
+		c.CrossCheck = true
+		c.TimeoutS = 60
+		r := Solve(&c, string(src), "lemma:"+s.Name)
+		out = append(out, lemmaResult{Name: s.Name, What: s.What, Status: r.Status, Solver: r.Solver, Output: r.Output, Ms: r.Ms})
+	}
+	return out
+}
+
+// typeGroundReads: every ground read of an integer-typed object field holds a
+// value of the field's Go type (heap typing invariant). Stated per read that
+// occurs in the query, including reads at skolem constants and at instantiation
+// terms, for which the generator could not state it earlier.
+func (g *Gen) typeGroundReads(asserts []*Term) []*Term {
+	seen := map[*Term]bool{}
+	added := map[*Term]bool{}
+	bmemo := map[*Term]bool{}
+	var extra []*Term
+	var baseComp func(a *Term) string
+	baseComp = func(a *Term) string {
+		for a != nil {
+			switch a.Op {
+			case "store":
+				a = a.Args[0]
+			case "ite":
+				a = a.Args[1]
+			case "const":
+				n := a.Name
+				i := strings.Index(n, "O:")
+				if i < 0 {
+					return ""
+				}
+				c := n[i:]
+				// strip version suffixes: "!<n>", "@<b>", "@loop<k>"
+				if j := strings.LastIndex(c, "@"); j > 0 {
+					c = c[:j]
+				}
+				if j := strings.LastIndex(c, "!"); j > 0 {
+					if _, err := fmt.Sscanf(c[j+1:], "%d", new(int)); err == nil {
+						c = c[:j]
+					}
+				}
+				return c
+			default:
+				return ""
+			}
+		}
+		return ""
+	}
+	var rec func(t *Term)
+	rec = func(t *Term) {
+		if seen[t] {
+			return
+		}
+		seen[t] = true
+		for _, a := range t.Args {
+			rec(a)
+		}
+		if t.Op == "select" && t.S == SInt && t.Args[0].S.Idx == SInt && !added[t] && !containsBound(t, bmemo) {
+			if c := baseComp(t.Args[0]); c != "" {
+				if ty, ok := g.compType[c]; ok {
+					if _, _, isInt := intRange(ty); isInt {
+						added[t] = true
+						extra = append(extra, inRange(t, ty))
+					}
+				}
+			}
+		}
+	}
+	for _, a := range asserts {
+		rec(a)
+	}
+	return append(asserts, extra...)
 }
